@@ -338,3 +338,15 @@ Proof.
   unfold get_stream. rewrite last_entry_wins by exact Hnot. rewrite Hs.
   rewrite (maccrash_any_placement e all v rest stype start alllocs recs Hwt Hmax Hv R Same). reflexivity.
 Qed.
+
+(* ------------------------------------------------------------------ Minidump::read: the regenerated order of steps *)
+From Coq Require Import String.
+Definition DOC_READ_STEPS : list string :=
+  ["header_little_endian"; "signature_or_swapped"; "header_big_endian"; "version_low_half"; "seek_directory"; "map_empty";
+   "walk_count_entries"; "insert_replaces_earlier"; "system_info_from_map"; "result"]%string.
+Theorem read_steps_regenerated :
+  RD_READ_STEPS = DOC_READ_STEPS /\
+  (forall version, 0 <= version -> Z.land version RD_VERSION_MASK = version mod 65536).
+Proof.
+  split; [reflexivity|]. intros version H. change RD_VERSION_MASK with (Z.ones 16). rewrite Z.land_ones by lia. reflexivity.
+Qed.
